@@ -307,5 +307,28 @@ def main(argv=None):
     return 1 if res.violations else 0
 
 
+def guarded_main():
+    """A failure inside the machinery (an observation the printers cannot express, a crashed comparison) must not pass
+    for a clean run: it is reported as a violation without a failing input, the traceback being the replay."""
+    try:
+        return main()
+    except SystemExit:
+        raise
+    except BaseException as e:  # noqa
+        if isinstance(e, KeyboardInterrupt):
+            raise
+        import traceback
+        prop = next((x for x in sys.argv[1:] if not x.startswith("-")), "unknown")
+        os.makedirs(os.path.join(ROOT, "replays"), exist_ok=True)
+        path = os.path.join(ROOT, "replays", "%s_machinery_failure.json" % prop)
+        with open(path, "w") as f:
+            json.dump({"property": prop, "kind": "the check could not be completed",
+                       "names": "the correspondence of %s (harness/check.py) no longer runs to the end" % prop,
+                       "traceback": traceback.format_exc()}, f, indent=1)
+        print("the check of %s could not be completed: %s: %s" % (prop, type(e).__name__, str(e)[:300]))
+        print("VIOLATION property=%s replay=%s no-failing-input-found" % (prop, path))
+        return 1
+
+
 if __name__ == "__main__":
-    sys.exit(main())
+    sys.exit(guarded_main())
